@@ -14,7 +14,7 @@ package fasthttp
 //@     (a == StateIdle && (b == StateActive || b == StateClosed))
 
 //@ func Server.serveConnCounted results err
-//@   property C10 C11 C14 C17 C02 C35 C03
+//@   property C10 C11 C14 C17 C02 C35 C03 C07
 //@   mode skeleton
 //@   nooverflow
 //@   stable s.DisableKeepalive s.MaxRequestsPerConn s.CloseOnShutdown s.ReduceMemoryUsage s.StreamRequestBody
@@ -74,16 +74,16 @@ package fasthttp
 //@   on call RequestHeader.readLoop:
 //@     effect reqDirty = true; lastBuffered = -1
 //@   on call Request.readLimitBody(_, r, max):
-//@     requires[body-limit-of-this-request] @C11 max == (hooked && ovr > 0 ? ovr : (s.MaxRequestBodySize > 0 ? s.MaxRequestBodySize : DefaultMaxRequestBodySize))
+//@     requires[body-limit-of-this-request] @C11,C07 max == (hooked && ovr > 0 ? ovr : (s.MaxRequestBodySize > 0 ? s.MaxRequestBodySize : DefaultMaxRequestBodySize))
 //@     effect formLive = *; lastBuffered = -1
 //@   on call Request.readBodyStream(_, r, max):
-//@     requires[body-limit-of-this-request] @C11 max == (hooked && ovr > 0 ? ovr : (s.MaxRequestBodySize > 0 ? s.MaxRequestBodySize : DefaultMaxRequestBodySize))
+//@     requires[body-limit-of-this-request] @C11,C07 max == (hooked && ovr > 0 ? ovr : (s.MaxRequestBodySize > 0 ? s.MaxRequestBodySize : DefaultMaxRequestBodySize))
 //@     effect unread = *; lastBuffered = -1
 //@   on call Request.ContinueReadBody(_, r, max):
-//@     requires[body-limit-of-this-request] @C11 max == (hooked && ovr > 0 ? ovr : (s.MaxRequestBodySize > 0 ? s.MaxRequestBodySize : DefaultMaxRequestBodySize))
+//@     requires[body-limit-of-this-request] @C11,C07 max == (hooked && ovr > 0 ? ovr : (s.MaxRequestBodySize > 0 ? s.MaxRequestBodySize : DefaultMaxRequestBodySize))
 //@     effect formLive = *; unread = false; lastBuffered = -1
 //@   on call Request.ContinueReadBodyStream(_, r, max):
-//@     requires[body-limit-of-this-request] @C11 max == (hooked && ovr > 0 ? ovr : (s.MaxRequestBodySize > 0 ? s.MaxRequestBodySize : DefaultMaxRequestBodySize))
+//@     requires[body-limit-of-this-request] @C11,C07 max == (hooked && ovr > 0 ? ovr : (s.MaxRequestBodySize > 0 ? s.MaxRequestBodySize : DefaultMaxRequestBodySize))
 //@     effect unread = *; lastBuffered = -1
 //@   on call field:ExpectHandler -> status:
 //@     effect rejected = rejected || status != StatusContinue; unread = unread || status != StatusContinue
